@@ -314,7 +314,7 @@ fn worker_main(check: &dyn Check, a: &Args, k: u64, w: u64) -> ! {
                     "values": out.decisions.iter().map(|d| d.2).collect::<Vec<u32>>(),
                 }));
             }
-            if viol_count >= 2000 {
+            if viol_count >= 300 {
                 break;
             }
         }
@@ -435,8 +435,56 @@ fn run_workers(check: &dyn Check, a: &Args, nworkers: usize, tag: &str, list_has
         nt_shapes: HashSet::new(),
         hashes: BTreeMap::new(),
     };
+    // watchdog: a worker whose progress file does not move for HANG_SECS is killed and the case it
+    // was running is reported (a run that never ends is a verdict, not a reason to hang the check)
+    let hang_secs: u64 = std::env::var("VERIF_HANG_SECS").ok().and_then(|s| s.parse().ok()).unwrap_or(300);
+    let mut hung: HashSet<usize> = HashSet::new();
+    {
+        let mut state: Vec<(u64, Instant, bool)> = kids.iter().map(|_| (u64::MAX, Instant::now(), false)).collect();
+        loop {
+            let mut all_done = true;
+            for (i, (k, out, child)) in kids.iter_mut().enumerate() {
+                if state[i].2 {
+                    continue;
+                }
+                match child.try_wait() {
+                    Ok(Some(_)) => state[i].2 = true,
+                    Ok(None) => {
+                        all_done = false;
+                        let p = read_u64s(&out.with_extension("progress")).first().copied().unwrap_or(0);
+                        if p != state[i].0 {
+                            state[i].0 = p;
+                            state[i].1 = Instant::now();
+                        } else if state[i].1.elapsed().as_secs() >= hang_secs {
+                            let _ = child.kill();
+                            hung.insert(*k);
+                            state[i].2 = true;
+                        }
+                    }
+                    Err(_) => state[i].2 = true,
+                }
+            }
+            if all_done {
+                break;
+            }
+            std::thread::sleep(std::time::Duration::from_millis(100));
+        }
+    }
     for (k, out, mut child) in kids {
         let st = child.wait().unwrap();
+        if hung.contains(&k) {
+            let p = read_u64s(&out.with_extension("progress"));
+            let case = p.first().copied().unwrap_or(0).wrapping_sub(1);
+            m.violation_count += 1;
+            let sig = "hang|no-progress".to_string();
+            *m.per_sig.entry(sig.clone()).or_insert(0) += 1;
+            m.violations.push(json!({
+                "sig": sig, "detail": format!("worker process made no progress for {hang_secs} s while running case {case} (killed)"),
+                "case": case, "seed": case_seed(a.seed, check.id(), case), "values": Value::Null,
+                "batch_seed": a.seed, "profile": check.worker_profile(k as usize),
+            }));
+            continue;
+        }
         if !st.success() {
             // the worker died inside a run: the progress file names the case
             use std::os::unix::process::ExitStatusExt;
@@ -547,7 +595,7 @@ fn write_replay(check: &dyn Check, v: &Value, tier: Tier) -> PathBuf {
     }
     std::fs::write(&path, serde_json::to_vec_pretty(&file).unwrap()).unwrap();
     // add the event trace in a child process: the replayed run may crash or corrupt memory
-    if v["values"].is_array() && !sig.starts_with("crash|") {
+    if v["values"].is_array() && !sig.starts_with("crash|") && !sig.starts_with("hang|") {
         let _ = std::process::Command::new(exe_for(v["profile"].as_str().unwrap_or("release")))
             .arg(check.id()).arg("--annotate").arg(&path).arg("--tier").arg(tier.name())
             .status();
@@ -737,6 +785,31 @@ fn replay_main(check: &dyn Check, f: &Path, tier: Tier) -> ! {
         }
         println!("not reproduced: the side check passes on this tree");
         std::process::exit(0);
+    }
+    if want.starts_with("hang|") {
+        // the run never ends: replay it in a child with a time limit
+        let limit: u64 = std::env::var("VERIF_HANG_SECS").ok().and_then(|s| s.parse().ok()).unwrap_or(300);
+        let mut child = std::process::Command::new(std::env::current_exe().unwrap())
+            .arg(check.id()).arg("--case").arg(case.to_string())
+            .arg("--seed").arg(v["batch_seed"].as_u64().unwrap_or(1).to_string())
+            .arg("--tier").arg(tier.name())
+            .stdout(std::process::Stdio::null())
+            .spawn().unwrap_or_else(|e| harness_error(&format!("cannot spawn: {e}")));
+        let t0 = Instant::now();
+        loop {
+            if let Ok(Some(_)) = child.try_wait() {
+                println!("not reproduced: the replayed execution ended on this tree");
+                std::process::exit(0);
+            }
+            if t0.elapsed().as_secs() >= limit {
+                let _ = child.kill();
+                let _ = child.wait();
+                println!("reproduced: the run of case {case} did not end within {limit} s (recorded: {want})");
+                println!("VIOLATION property={} replay={}", check.id(), f.display());
+                std::process::exit(1);
+            }
+            std::thread::sleep(std::time::Duration::from_millis(100));
+        }
     }
     if want.starts_with("crash|") {
         // the run kills its process: replay it in a child, from its seed
